@@ -58,7 +58,14 @@ def run(tier, seed):
     cov['transitions'] += u['transitions']
     cov['traces_validated_against_impl'] += u['traces']
     cov['unidentified_file_states'] = u['states']
+    # identified trajectories split over a base and an associated file
+    c = hist.explore(DRIVER, ('c08q', True, 2, 'assoc'), 6 if tier == 'quick' else 8, dedup=True, seed=seed, label='assoc-layout')
+    cov['states'] += c['states']
+    cov['transitions'] += c['transitions']
+    cov['traces_validated_against_impl'] += c['traces']
+    cov['associated_layout_states'] = c['states']
     nm, vm = merged_lookups(tier)
+    vm = c['violations'] + vm
     cov['merged_store_lookup_cases'] = nm
     cov['traces_validated_against_impl'] += nm
     return cov, a['violations'] + u['violations'] + b['violations'] + vm
